@@ -121,15 +121,23 @@ def main():
                 continue
             tests = ""
             if a.tests:
-                p = subprocess.run(["/venv/bin/python", "-m", "pytest", "-q", "-p", "no:cacheprovider", "-x"],
-                                   cwd=scratch, capture_output=True, text=True,
-                                   env=dict(os.environ, PYTHONPATH=scratch))
-                tests = "tests:" + (p.stdout.strip().splitlines() or ["?"])[-1][:40]
+                try:
+                    p = subprocess.run(["/venv/bin/python", "-m", "pytest", "-q", "-p", "no:cacheprovider", "-x",
+                                        "--timeout=60"],
+                                       cwd=scratch, capture_output=True, text=True, timeout=300,
+                                       env=dict(os.environ, PYTHONPATH=scratch))
+                    tests = "tests:" + (p.stdout.strip().splitlines() or ["?"])[-1][:40]
+                except subprocess.TimeoutExpired:
+                    tests = "tests:TIMEOUT"
             for c in checks or ["C01"]:
                 env = dict(os.environ, VERIF_REPO=scratch, VERIF_NO_EVIDENCE="1", VERIF_WORK=os.path.join(VERIF, ".work", "mut"))
-                p = subprocess.run(["/venv/bin/python", os.path.join(VERIF, "vcheck.py"), c, "--tier", "quick"],
-                                   cwd=VERIF, env=env, capture_output=True, text=True)
-                verdict = {0: "held (MISSED)" if mut[4] else "held (ok, control)", 1: "VIOLATION (caught)", 2: "INCONCLUSIVE"}.get(p.returncode, str(p.returncode))
+                try:
+                    p = subprocess.run(["/venv/bin/python", os.path.join(VERIF, "vcheck.py"), c, "--tier", "quick"],
+                                       cwd=VERIF, env=env, capture_output=True, text=True, timeout=900)
+                    rc = p.returncode
+                except subprocess.TimeoutExpired:
+                    rc = "TIMEOUT"
+                verdict = {0: "held (MISSED)" if mut[4] else "held (ok, control)", 1: "VIOLATION (caught)", 2: "INCONCLUSIVE"}.get(rc, str(rc))
                 rows.append((mid, c, verdict + " " + tests, note))
                 print("%s %s %-22s %s %s" % (mid, c, verdict, tests, note), flush=True)
         finally:
